@@ -254,9 +254,9 @@ Definition wrap180 (d : R) : R := fmod (d + 180) 360 - 180.
 
 Section Driver.
   (* balance as a function of (wind direction, U10); stress direction as a function of
-     (U10, wind direction), None = NaN *)
+     (U10, wind direction): None = the stress evaluation raises, Some None = NaN *)
   Variable F : R -> R -> option R.
-  Variable newdir : R -> R -> option R.
+  Variable newdir : R -> R -> option (option R).
   Variable diriter : bool.
 
   Fixpoint dir_loop (n : nat) (u dir : R) : option R * option R :=
@@ -268,9 +268,10 @@ Section Driver.
       | Some u' =>
         if diriter then
           match newdir u' dir with
-          | None =>                                   (* NaN direction poisons the next solve *)
+          | None => (None, Some dir)                  (* except: u10 = nan; break *)
+          | Some None =>                              (* NaN direction poisons the next solve *)
               match k with O => (Some u', None) | S _ => (None, None) end
-          | Some nd =>
+          | Some (Some nd) =>
               let dd := wrap180 (nd - dir) in
               if Rlt_dec (Rabs dd) 1 then (Some u', Some nd)
               else if Rlt_dec (Rabs dd) 10 then dir_loop k u' nd
@@ -295,7 +296,7 @@ Record point := mkpoint {
   p_guess : R;                                  (* first guess of U10 *)
   p_gen : R -> R -> option (list (list R));     (* direction -> U10 -> generation field *)
   p_dedt : list (list R);                       (* rate-of-change spectrum (zeros if absent) *)
-  p_newdir : R -> R -> option R }.
+  p_newdir : R -> R -> option (option R) }.
 
 Definition u10_from_spectra_point (g : grid) (diriter : bool) (p : point) : option R * option R :=
   let direction := diss_direction (p_diss p) (p_k p) g in
